@@ -42,7 +42,7 @@ pub fn programs(tier: Tier) -> ProgramSet {
     let mut out = Vec::new();
     let mut excluded = 0u64;
     let flags = [None, Some(Aci::Bare), Some(Aci::True), Some(Aci::False)];
-    for n in 2..=3usize {
+    for n in 1..=3usize {
         for eflag in [false, true] {
             for combo in 0..(4usize.pow(n as u32)) {
                 let mut base = EnumSpec::base(n);
